@@ -603,9 +603,11 @@ class BaseNodeVisitor(ast.NodeVisitor):
             )
             return None
 
-        # check if error was disabled
-        if error_code is not None and not self.is_enabled(error_code):
-            return None
+        # Check if the error was disabled. We return only after looking at the
+        # ignore comments, so that a comment that suppresses a disabled error
+        # still counts as used and disabling an error code does not produce
+        # new unused_ignore errors.
+        is_disabled = error_code is not None and not self.is_enabled(error_code)
 
         if self.has_file_level_ignore(error_code, ignore_comment):
             return None
@@ -669,6 +671,9 @@ class BaseNodeVisitor(ast.NodeVisitor):
             ):
                 self.used_ignores.add(lineno - 2)
                 return
+
+        if is_disabled:
+            return None
 
         self.had_failure = True
 
